@@ -287,6 +287,8 @@ pub struct Profile {
     pub marks: bool,
     pub events: bool,
     pub pre: bool,
+    /// padding bytes per component (per slot: pad + 7 * slot index), to force splitting of mutate messages
+    pub pad: usize,
     pub settle: usize,
     /// avoid histories matching open known-finding signatures
     pub clean: bool,
@@ -294,7 +296,7 @@ pub struct Profile {
 
 impl Default for Profile {
     fn default() -> Self {
-        Self { steps: 40, comps: vec!["A", "B"], vis: false, rel: false, sess: false, marks: true, events: false, pre: false, settle: 4, clean: true }
+        Self { steps: 40, comps: vec!["A", "B"], vis: false, rel: false, sess: false, marks: true, events: false, pre: false, pad: 0, settle: 4, clean: true }
     }
 }
 
@@ -328,6 +330,11 @@ pub fn f17_trigger(sim: &Sim, parent_at_tick: &std::collections::BTreeMap<String
 pub fn random_run<W: Write>(tr: &mut Trace<W>, cfg: Cfg, prof: &Profile, seed: u64, run: u64) -> Sim {
     let mut rng = Rng::new(seed);
     let mut sim = Sim::new(cfg);
+    if prof.pad > 0 {
+        for (i, slot) in sim.slots.values_mut().enumerate() {
+            slot.pad = prof.pad + 7 * i;
+        }
+    }
     tr.start_run(&sim, run, json!({"seed": seed}));
     let ents: Vec<String> = sim.cfg.ents.clone();
     let clients: Vec<String> = sim.cfg.clients.clone();
@@ -347,6 +354,28 @@ pub fn random_run<W: Write>(tr: &mut Trace<W>, cfg: Cfg, prof: &Profile, seed: u
             let c = rng.pick(&clients).clone();
             let e = if rng.chance(1, 2) { rng.pick(&ents).clone() } else { "none".to_string() };
             next_id += 1;
+            if rng.chance(1, 6) {
+                // an event overtakes the update message of its tick and is queued on the client; a later
+                // event of the same type then arrives together with the delayed update message
+                let t = if rng.chance(1, 2) { "SOrd" } else { "STrig" };
+                let e = ents[0].clone();
+                tr.step(&mut sim, "Spawn", json!({"e": ents[rng.below(ents.len())], "comps": ["A"], "repl": true}));
+                tr.step(&mut sim, "Mutate", json!({"e": e, "k": "A"}));
+                tr.step(&mut sim, "Insert", json!({"e": e, "k": "B"}));
+                tr.step(&mut sim, "EmitS", json!({"t": t, "id": next_id, "mode": "all", "to": "none", "e": "none"}));
+                tr.step(&mut sim, "SrvFrame", json!({"tick": true, "dt": 0}));
+                tr.step(&mut sim, "DeliverEvS", json!({"c": c, "t": t, "pos": 0}));
+                tr.step(&mut sim, "CliFrame", json!({"c": c, "dt": 0}));
+                next_id += 1;
+                tr.step(&mut sim, "EmitS", json!({"t": t, "id": next_id, "mode": "all", "to": "none", "e": "none"}));
+                tr.step(&mut sim, "SrvFrame", json!({"tick": true, "dt": 0}));
+                while sim.channel_len(&c, "s2c", CH_UPD) > 0 {
+                    tr.step(&mut sim, "DeliverUpd", json!({"c": c}));
+                }
+                tr.step(&mut sim, "DeliverEvS", json!({"c": c, "t": t, "pos": 0}));
+                tr.step(&mut sim, "CliFrame", json!({"c": c, "dt": 0}));
+                continue;
+            }
             match rng.below(10) {
                 0..=3 => {
                     let t = *rng.pick(&crate::events::SEV);
@@ -396,6 +425,16 @@ pub fn random_run<W: Write>(tr: &mut Trace<W>, cfg: Cfg, prof: &Profile, seed: u
                 }
                 _ => tr.step(&mut sim, "KillPre", json!({"c": c, "p": p})),
             };
+            continue;
+        }
+        if prof.pad > 0 && rng.chance(1, 7) {
+            // everything changes at once: with a small maximum message size the tick needs several messages
+            for e in &ents {
+                for k in &prof.comps {
+                    tr.step(&mut sim, "Mutate", json!({"e": e, "k": k}));
+                }
+            }
+            tr.step(&mut sim, "SrvFrame", json!({"tick": true, "dt": 0}));
             continue;
         }
         if rng.chance(1, 14) {
